@@ -125,6 +125,8 @@ MAt(S, i) ==
      ELSE IF b = N + 1 THEN BR(GG(i) - GG(a), L)
      ELSE LET dpi == PR(i) - PR(a)
               dpb == PR(b) - PR(a)
+              \* sum over the edges a <= k < x of (weight of the states a+1..k) x resistance; the second
+              \* term only keeps the numbers small: a multiple of PR(x) - PR(a) cancels in the difference below
               Sp(x) == (HH(x) - HH(a)) - HD(a) * (PR(x) - PR(a))
           IN <<BSub(BMul(BFromInt(Sp(b)), BFromInt(dpi)), BMul(BFromInt(Sp(i)), BFromInt(dpb))),
                BMul(BFromInt(L), BFromInt(dpb))>>
@@ -249,10 +251,14 @@ FirstStep     == HasQ => \A i \in Inter : BREq(BRScale(Den(i), q[i]), Lin3(i, q)
 
 (* mean first-passage times: vec is 0 on S and den[i] vec[i] = den[i] lag + sum_j X[i][j] vec[j] off it *)
 MZero(vec, S) == \A i \in S : BRIsZero(vec[i])
-MFirst(vec, S) == \A i \in Idx \ S :
+MFirstLag(vec, S, lg) == \A i \in Idx \ S :
   /\ BRIsRat(vec[i])
-  /\ BREq(BRScale(Den(i), vec[i]), BRAdd(BRScale(Den(i), LagBR), Lin3(i, vec)))
-MLagLinear(vec, S) == \A i \in Idx : BREq(vec[i], BRMul(LagBR, MAt(S, i)))
+  /\ BREq(BRScale(Den(i), vec[i]), BRAdd(BRScale(Den(i), lg), Lin3(i, vec)))
+MFirst(vec, S) == MFirstLag(vec, S, LagBR)
+(* vec is the lag time times the solution for lag time one *)
+MLagLinear(vec, S) == LET m1 == MVec(S, BROne)
+                      IN /\ MZero(m1, S) /\ MFirstLag(m1, S, BROne)
+                         /\ \A i \in Idx : BREq(vec[i], BRMul(LagBR, m1[i]))
 
 MZeroOnSinks  == HasM => MZero(m, snk)
 MFPTFirstStep == HasM => MFirst(m, snk)
